@@ -1,21 +1,31 @@
 (* C16 -- Const-ness propagates: nothing reachable from a const array or view is writable.
    This file holds only the property theorems, each closed by `exact`, with Print Assumptions.
    Model: coq/Model/ConstAutomaton.v (tied row by row to the library by the check); proofs: coq/Proofs/ConstAutomatonProofs.v.
-   The model follows /repo after the five C16 repairs 0cc5cd0, c42ae62, 0310609, 49fc935, f94579a. *)
+   The model follows /repo after the five C16 repairs 0cc5cd0, c42ae62, 0310609, 49fc935, f94579a and 9ea7c0b; the alphabet
+   holds the access / view-forming operations, the projections (element_transformed, member_cast, the array casts, element_moved),
+   the conversions between handle kinds (implicit, explicit, by assignment, comparison), view construction and decay. *)
 From Coq Require Import List Bool.
 Import ListNotations.
 From BM Require Import Model.ConstAutomaton Proofs.ConstAutomatonProofs.
 
-(* The first clause at full strength (every access path from a const root) is still FALSE of the code: one site is
-   open, array_iterator<D>=2, IsConst>::base() const -> element_ptr (array_ref.hpp:632): *A.begin().base() = 1. *)
+(* The first clause at full strength (every access path from a const root) is still FALSE of the code:
+   array_iterator<D>=2, IsConst>::base() const -> element_ptr (array_ref.hpp:632): *A.begin().base() = 1. *)
 Theorem C16_const_propagates_refuted : ~ C16_const_full.
 Proof. exact const_full_refuted. Qed.
 Print Assumptions C16_const_propagates_refuted.
 
-(* What holds: along every path, of any length and at any dimensionality, that does not take the one excluded step
-   (`hole` = base() of a const_iterator of dimensionality >= 2), a read-only typed expression -- a const array, a
-   const-qualified view or array_ref, a const_subarray, a const_iterator, a const subarray_ptr, anything over a pointer
-   to const, a reference to const -- only yields read-only typed expressions, and none of them accepts `=`, fill or swap. *)
+(* What holds: along every path, of any length and at any dimensionality, that takes none of the excluded steps, a read-only
+   typed expression -- a const array, a const-qualified view or array_ref, a const_subarray, a const_iterator, a const subarray_ptr,
+   anything over a pointer to const or over a transform_ptr whose reference is const / a value, a reference to const -- only yields
+   read-only typed expressions, and none of them accepts `=`, fill or swap.  `hole` excludes
+     base() of a const_iterator of dimensionality >= 2                        (array_ref.hpp:632)
+     base() of a transform_ptr whose reference is const / a value             (utility.hpp:109: the wrapped pointer to S)
+     const subarray_ptr -> subarray_ptr                                       (array_ref.hpp:367-375; repair 06)
+     transform_ptr<.., int const&> -> transform_ptr<.., int&> and the handles over them   (utility.hpp:104-108; repair 07)
+     static_array_cast<T>() of a read-only view                               (array_ref.hpp:1700: [[deprecated("violates constness")]])
+     member_cast() of a 1-D read-only view                                    (array_ref.hpp:3266; repair 08)
+     element_transformed(f) / member_cast(pm) of a non-const const_subarray   (array_ref.hpp:1735, :1766, :3249; repair 08)
+   and the library's named ways out, const_array_cast() and mutable_base().  Each is shown real by C16_holes_are_real. *)
 Theorem C16_const_propagates :
   forall (p : list aop) (s s' : state),
     ro s = true -> clean_path p s = true -> run_path p s = Some s' ->
@@ -28,6 +38,48 @@ Theorem C16_const_roots :
     const_root r = true -> clean_path p r = true -> run_path p r = Some s -> writable s = false.
 Proof. exact const_roots_proved. Qed.
 Print Assumptions C16_const_roots.
+
+(* every exclusion is a site of the tree at which a path from a const root does end writable (transform_ptr::base(): in a mutable
+   pointer to the struct element); the four with a proposed repair under the hypothesis that the repair is not in the tree *)
+Theorem C16_holes_are_real :
+     (run_path [ABegin; ABase; ADeref] cA2 = Some (mkSt KElem 0 false Lv) /\ writable (mkSt KElem 0 false Lv) = true
+      /\ hole (mkSt (KIt true (PI false)) 2 false Rv) ABase = true)
+  /\ (fx_sptr_conv = false ->
+      run_path [ACall0; AAddrOf; AConv FI false false; ADeref; AIndex; AIndex] cA2 = Some wE /\ writable wE = true
+      /\ hole (mkSt (KSP true (PI false)) 2 false Rv) (AConv FI false false) = true)
+  /\ (fx_tptr_conv = false ->
+      run_path [ABase; AConv FI false false; ADeref] cP2 = Some wE /\ writable wE = true
+      /\ hole (mkSt (KPt (PT TmC)) 0 false Rv) (AConv FI false false) = true)
+  /\ (fx_csub_proj = false ->
+      run_path [AMemberCast; AIndex] cAS1 = Some wE /\ writable wE = true /\ hole cAS1 AMemberCast = true)
+  /\ (fx_csub_proj = false ->
+      run_path [ACall0; AETransMP; AIndex; AIndex] cAS2 = Some wE /\ run_path [ACall0; AMemberCast; AIndex; AIndex] cAS2 = Some wE
+      /\ writable wE = true
+      /\ hole (mkSt (KCSubS false) 2 false Rv) AETransMP = true /\ hole (mkSt (KCSubS false) 2 false Rv) AMemberCast = true)
+  /\ (run_path [AStaticCast; AIndex; AIndex] cA2 = Some wE /\ writable wE = true /\ hole cA2 AStaticCast = true)
+  /\ (run_path [ABase; ABase] cP2 = Some (mkSt (KPtS false) 0 true Lv) /\ ro (mkSt (KPtS false) 0 true Lv) = false
+      /\ hole (mkSt (KPt (PT TmC)) 0 false Rv) ABase = true)
+  /\ (run_path [AConstCast; AIndex; AIndex] cA2 = Some wE /\ run_path [AMutableBase; ADeref] cA2 = Some wE /\ writable wE = true
+      /\ hole cA2 AConstCast = true /\ hole cA2 AMutableBase = true).
+Proof.
+  exact (conj witness_iter_base (conj witness_sptr_conv (conj witness_tptr_conv (conj witness_member_cast1
+        (conj witness_csub_proj (conj witness_static_cast (conj witness_tptr_base witness_escapes))))))).
+Qed.
+Print Assumptions C16_holes_are_real.
+
+(* the projections and the conversions between handle kinds are covered: a projection view held by auto const& yields int const&
+   along [i][j], (i,j), elements(), home(), iterators; a const_iterator does not convert to an iterator *)
+Theorem C16_projections_and_conversions :
+     (clean_path [AIndex; AIndex] cP2 = true /\ run_path [AIndex; AIndex] cP2 = Some (mkSt KElem 0 true Lv))
+  /\ (clean_path [ACallAll] cP2 = true /\ run_path [ACallAll] cP2 = Some (mkSt KElem 0 true Lv))
+  /\ (clean_path [AElements; AIndex] cP2 = true /\ run_path [AElements; AIndex] cP2 = Some (mkSt KElem 0 true Lv))
+  /\ (clean_path [AHome; ADeref] cP2 = true /\ run_path [AHome; ADeref] cP2 = Some (mkSt KElem 0 true Lv))
+  /\ (clean_path [ABegin; ADeref; ABegin; ADeref] cP2 = true /\ run_path [ABegin; ADeref; ABegin; ADeref] cP2 = Some (mkSt KElem 0 true Lv))
+  /\ (astep (mkSt (KIt true (PI false)) 2 false Rv) (AConv FI false false) = No
+      /\ astep (mkSt (KIt true (PI false)) 2 false Rv) (AConv FE false false) = No
+      /\ astep (mkSt (KIt true (PI false)) 2 false Rv) (AConv FA false false) = No).
+Proof. exact projections_and_conversions_clean. Qed.
+Print Assumptions C16_projections_and_conversions.
 
 (* the five steps that had to be excluded on the snapshot (const_iterator[] / (), const_subarray::elements() on a non-const
    object, origin() const&, addressof()/operator& of a const_subarray, const_subarray_ptr::base()) are covered now: the
@@ -71,7 +123,7 @@ Print Assumptions C16_mutable_full_refuted.
 Theorem C16_mutability_lost_only_at_gaps :
   forall s o s', ro s = false -> astep s o = To s' -> ro s' = true ->
     (owning (sk s) && match scat s with Rv => true | Lv => false end) = false ->
-    gap_op o = true \/ intended_const_op o = true \/ (o = ABase /\ sk s = KEI false /\ sc s = true).
+    gap_op o = true \/ intended_const_op o = true \/ (o = ABase /\ is_ei (sk s) = true /\ sc s = true).
 Proof. exact mutability_lost_only_at_gaps. Qed.
 Print Assumptions C16_mutability_lost_only_at_gaps.
 
@@ -85,6 +137,6 @@ Print Assumptions C16_no_rebind.
 
 Theorem C16_view_assignment :
   forall s, (is_view (sk s) = true \/ is_array_ref (sk s) = true) ->
-    (ro s = true -> astep s AAssign <> Mut) /\ (ro s = false -> astep s AAssign = Mut).
+    (ro s = true -> astep s AAssign <> Mut) /\ (ro s = false -> assignable_thing s = true -> astep s AAssign = Mut).
 Proof. exact view_assignment_is_element_assignment. Qed.
 Print Assumptions C16_view_assignment.
